@@ -86,12 +86,12 @@ def _hint_terms(formulas):
     return list(found.values())
 
 
-def to_smt2_parts(pc, hyps, atom):
+def to_smt2_parts(pc, hyps, atom, extra_hints=()):
     s = z3.Solver()
     fs = list(pc) + list(hyps) + [z3.Not(atom)]
     for f in fs:
         s.add(f)
-    hints = _hint_terms(fs)
+    hints = _hint_terms(fs) + list(extra_hints)
     for t in hints:
         h = z3.Function("hint!" + str(t.sort()).replace(" ", "_").replace("(", "<").replace(")", ">"), t.sort(), z3.BoolSort())
         s.add(h(t))
@@ -100,7 +100,7 @@ def to_smt2_parts(pc, hyps, atom):
 
 def to_smt2(ob):
     parts = expand_goal(ob.goal)
-    return [to_smt2_parts(ob.pc, hs, atom) for hs, atom in parts]
+    return [to_smt2_parts(ob.pc, hs, atom, ob.observables or ()) for hs, atom in parts]
 
 
 _pool = None
